@@ -207,7 +207,39 @@ def class_refs(ty: dict) -> set[str]:
     return class_refs(ty["of"])
 
 
+def _make(name: str, cd: dict, classes: dict[str, type], placeholder: bool) -> tuple[type, dict[str, dict]]:
+    """One dataclass from its abstract definition.  placeholder=True: fields that mention a class are created with a
+    placeholder annotation and resolved afterwards (mutually recursive classes)."""
+    req, opt = [], []
+    later: dict[str, dict] = {}
+    for f in cd["fields"]:
+        if placeholder and class_refs(f["ty"]):
+            t: Any = Any
+            later[f["py"]] = f
+        else:
+            t = py_type(f["ty"], classes)
+            if not f["req"] and f["ty"]["k"] != "opt":
+                t = Optional[t]
+        if f["req"]:
+            req.append((f["py"], t))
+        else:
+            opt.append((f["py"], t, dataclasses.field(default=None)))
+    ns: dict[str, Any] = {}
+    if cd["meta"] != "none":
+        pairs = [(f["wire"], f["py"]) for f in cd["fields"] if cd["meta"] == "full" or f["wire"] != f["py"]]
+        ns["Meta"] = type(
+            "Meta",
+            (),
+            {"key_transform_with_load": {w: p for w, p in pairs}, "key_transform_with_dump": {p: w for w, p in pairs}},
+        )
+    # `pyname`: the class's __qualname__ (same module for all) - two table entries may share it
+    return dataclasses.make_dataclass(cd.get("pyname", name), req + opt, namespace=ns), later
+
+
 def build_classes(table: dict) -> dict[str, type]:
+    """Acyclic part in dependency order; classes on a cycle of the class graph are created first and their
+    annotations resolved to the real classes afterwards (what a module-level definition with PEP 563 / forward
+    references resolves to: get_type_hints and dataclasses.fields both see the classes themselves)."""
     KEYOF.clear()
     classes: dict[str, type] = {}
     pending = dict(table)
@@ -219,30 +251,23 @@ def build_classes(table: dict) -> dict[str, type]:
                 deps |= class_refs(f["ty"])
             if deps - set(classes):
                 continue
-            req, opt = [], []
-            for f in cd["fields"]:
-                t = py_type(f["ty"], classes)
-                if f["req"]:
-                    req.append((f["py"], t))
-                else:
-                    if f["ty"]["k"] != "opt":
-                        t = Optional[t]
-                    opt.append((f["py"], t, dataclasses.field(default=None)))
-            ns: dict[str, Any] = {}
-            if cd["meta"] != "none":
-                pairs = [(f["wire"], f["py"]) for f in cd["fields"] if cd["meta"] == "full" or f["wire"] != f["py"]]
-                ns["Meta"] = type(
-                    "Meta",
-                    (),
-                    {"key_transform_with_load": {w: p for w, p in pairs}, "key_transform_with_dump": {p: w for w, p in pairs}},
-                )
-            # `pyname`: the class's __qualname__ (same module for all) - two table entries may share it
-            classes[name] = dataclasses.make_dataclass(cd.get("pyname", name), req + opt, namespace=ns)
-            KEYOF[id(classes[name])] = name
+            classes[name], _ = _make(name, cd, classes, False)
             del pending[name]
             progressed = True
         if not progressed:
-            raise ValueError("class table is cyclic")
+            todo = {}
+            for name, cd in pending.items():
+                classes[name], todo[name] = _make(name, cd, classes, True)
+            for name, later in todo.items():
+                for py, f in later.items():
+                    t = py_type(f["ty"], classes)
+                    if not f["req"] and f["ty"]["k"] != "opt":
+                        t = Optional[t]
+                    classes[name].__dataclass_fields__[py].type = t
+                    classes[name].__annotations__[py] = t
+            pending = {}
+    for name, c in classes.items():
+        KEYOF[id(c)] = name
     return classes
 
 
@@ -265,11 +290,19 @@ def call(fn, *a):
 
 
 def job_rt(job: dict) -> dict:
+    """fresh_each: EVERY instance is first decoded in a fresh converter state (nothing structured before);
+    otherwise the converter is fresh per class table and the largest instance is decoded first.  `dec2` = the same
+    decode repeated in the then warm state (same call after a different prefix)."""
     fresh_converter()
     classes = build_classes(job["classes"])
     top = py_type(job["top"], classes)
     ev = []
-    for it in job["inst"]:
+    inst = sorted(job["inst"], key=lambda it: -len(json.dumps(it["j"])))
+    for n, it in enumerate(inst):
+        if job.get("fresh_each") and n > 0:
+            fresh_converter()
+            classes = build_classes(job["classes"])
+            top = py_type(job["top"], classes)
         e: dict[str, Any] = {"k": "rt", "j": it["j"]}
         data = untag(it["j"])
         ok, v = call(cc.structure_from_dict, data, top)
@@ -280,6 +313,9 @@ def job_rt(job: dict) -> dict:
             e["dec"] = abs_val(v)
             ok2, out = call(cc.unstructure_to_dict, v)
             e["out"] = tag(out) if ok2 else out
+        if job.get("fresh_each") or n == 0:
+            ok, v = call(cc.structure_from_dict, untag(it["j"]), top)
+            e["dec2"] = abs_val(v) if ok else v
         # encode-then-decode of an instance built by the harness from the specification's value
         inst = build_val(it["v"], classes)
         e["v"] = abs_val(inst)
